@@ -33,6 +33,33 @@ fn subst(toml: &str, backends: &HashMap<String, Arc<Backend>>) -> String {
     t
 }
 
+/// C09: build the PasswordMessage from the computed answer `h` after the edits in `e`.
+fn c09_edit_response(h: &mut Vec<u8>, e: &Value) -> Vec<u8> {
+    if let Some(n) = e.get("trunc").and_then(|x| x.as_u64()) {
+        h.truncate(n as usize);
+    }
+    if let Some(i) = e.get("xor_at").and_then(|x| x.as_u64()) {
+        if (i as usize) < h.len() {
+            h[i as usize] ^= 1;
+        }
+    }
+    if let Some(a) = e.get("append").and_then(|x| x.as_str()) {
+        h.extend(unhex(a));
+    }
+    let declared = e.get("declared_len").and_then(|x| x.as_i64()).map(|x| x as i32).unwrap_or(h.len() as i32 + 4);
+    let tag = e.get("tag").and_then(|x| x.as_str()).and_then(|t| t.as_bytes().first().cloned()).unwrap_or(b'p');
+    let mut f = vec![tag];
+    f.extend(declared.to_be_bytes());
+    f.extend(h.iter());
+    if let Some(a) = e.get("after").and_then(|x| x.as_str()) {
+        f.extend(unhex(a)); // bytes pipelined right behind the message
+    }
+    if let Some(n) = e.get("partial").and_then(|x| x.as_u64()) {
+        f.truncate(n as usize);
+    }
+    f
+}
+
 async fn client_step(log: &Log, port: u16, clients: &Shared, step: &Value, with_hex: bool) {
     let op = step["op"].as_str().unwrap_or("");
     let cname = step["c"].as_str().unwrap_or("c").to_string();
@@ -53,6 +80,18 @@ async fn client_step(log: &Log, port: u16, clients: &Shared, step: &Value, with_
                         return;
                     }
                     // authentication exchange
+                    // C09 (additive): "ssl_byte": true reads the single-byte answer to an SSLRequest first
+                    let mut resp_hex = Value::Null;
+                    let mut ssl_byte = Value::Null;
+                    if step.get("ssl_byte").and_then(|x| x.as_bool()).unwrap_or(false) {
+                        use tokio::io::AsyncReadExt;
+                        let mut one = [0u8; 1];
+                        if let Some(s) = c.stream.as_mut() {
+                            if let Ok(Ok(1)) = tokio::time::timeout(std::time::Duration::from_millis(step["timeout_ms"].as_u64().unwrap_or(3000)), s.read(&mut one)).await {
+                                ssl_byte = json!((one[0] as char).to_string());
+                            }
+                        }
+                    }
                     let (mut frames, mut outcome) = c.recv("RZE", 1, step["timeout_ms"].as_u64().unwrap_or(3000), with_hex).await;
                     let mut authed = false;
                     if let Some(last) = frames.last().cloned() {
@@ -68,11 +107,16 @@ async fn client_step(log: &Log, port: u16, clients: &Shared, step: &Value, with_
                                     if let Some(h) = step.get("salt_override").and_then(|x| x.as_str()) {
                                         salt_used = unhex(h);
                                     }
-                                    let h = pgcat::messages::md5_hash_password(user, pw, &salt_used);
-                                    client::frame(b'p', &h)
+                                    let mut h = pgcat::messages::md5_hash_password(user, pw, &salt_used);
+                                    // C09 (additive): "resp_edit" {trunc,xor_at,append,declared_len,tag,partial} mangles the computed answer
+                                    match step.get("resp_edit") {
+                                        Some(e) if e.is_object() => c09_edit_response(&mut h, e),
+                                        _ => client::frame(b'p', &h),
+                                    }
                                 }
                             };
                             c.send_raw(&resp, &[]).await;
+                            resp_hex = json!(hex(&resp)); // C09: the exact answer bytes sent
                             let (f2, o2) = c.recv("ZE", 1, step["timeout_ms"].as_u64().unwrap_or(3000), with_hex).await;
                             frames.extend(f2);
                             outcome = o2;
@@ -87,7 +131,7 @@ async fn client_step(log: &Log, port: u16, clients: &Shared, step: &Value, with_
                             authed = true;
                         }
                     }
-                    mockpg::log_event(log, json!({"who": cname, "ev": "startup_done", "frames": frames, "outcome": outcome, "auth_ok": authed, "pid": c.pid, "key": c.key}));
+                    mockpg::log_event(log, json!({"who": cname, "ev": "startup_done", "frames": frames, "outcome": outcome, "auth_ok": authed, "pid": c.pid, "key": c.key, "resp_hex": resp_hex, "ssl_byte": ssl_byte}));
                     clients.lock().insert(cname, Arc::new(AMutex::new(c)));
                 }
             }
@@ -114,14 +158,53 @@ async fn client_step(log: &Log, port: u16, clients: &Shared, step: &Value, with_
             let until = step["until"].as_str().unwrap_or("Z");
             let count = step["count"].as_u64().unwrap_or(1) as usize;
             let to = step["timeout_ms"].as_u64().unwrap_or(3000);
-            let (frames, outcome) = c.lock().await.recv(until, count, to, with_hex).await;
-            mockpg::log_event(log, json!({"who": cname, "ev": "recv", "frames": frames, "outcome": outcome, "label": step["label"]}));
+            let mut g = c.lock().await;
+            let raw0 = g.rawlog.len();
+            let (frames, outcome) = g.recv(until, count, to, with_hex).await;
+            // C03: with "hex": true the exact bytes received during this step (Client.rawlog) are exposed as `raw`
+            let raw = if with_hex { json!(hex(&g.rawlog[raw0..])) } else { Value::Null };
+            drop(g);
+            mockpg::log_event(log, json!({"who": cname, "ev": "recv", "frames": frames, "outcome": outcome, "label": step["label"], "raw": raw}));
         }
         "close" => {
             let c = clients.lock().get(&cname).cloned();
             if let Some(c) = c {
                 c.lock().await.stream = None;
                 mockpg::log_event(log, json!({"who": cname, "ev": "closed_by_client"}));
+            }
+        }
+        // C11 (additive): shut down the WRITE half only (pgcat reads EOF after everything that was sent,
+        // the client can still read every reply up to pgcat's own close)
+        "half_close" => {
+            let c = clients.lock().get(&cname).cloned();
+            if let Some(c) = c {
+                use tokio::io::AsyncWriteExt;
+                let mut g = c.lock().await;
+                let ok = match g.stream.as_mut() {
+                    Some(s) => s.shutdown().await.is_ok(),
+                    None => false,
+                };
+                mockpg::log_event(log, json!({"who": cname, "ev": "half_closed", "ok": ok}));
+            }
+        }
+        // C11 (additive): read exactly n raw bytes (the one-byte answer to an SSLRequest is not a frame)
+        "read_raw" => {
+            let c = clients.lock().get(&cname).cloned();
+            if let Some(c) = c {
+                use tokio::io::AsyncReadExt;
+                let n = step["n"].as_u64().unwrap_or(1) as usize;
+                let to = step["timeout_ms"].as_u64().unwrap_or(3000);
+                let mut buf = vec![0u8; n];
+                let mut g = c.lock().await;
+                let outcome = match g.stream.as_mut() {
+                    Some(s) => match tokio::time::timeout(std::time::Duration::from_millis(to), s.read_exact(&mut buf)).await {
+                        Err(_) => "timeout",
+                        Ok(Err(_)) => "closed",
+                        Ok(Ok(_)) => "ok",
+                    },
+                    None => "closed",
+                };
+                mockpg::log_event(log, json!({"who": cname, "ev": "read_raw", "outcome": outcome, "hex": hex(&buf)}));
             }
         }
         "sleep" => {
@@ -171,15 +254,28 @@ async fn run(scn: Value) -> Value {
         with_hex: scn.get("hex").and_then(|x| x.as_bool()).unwrap_or(false),
     };
     let empty = vec![];
+    if scn.get("log_out").and_then(|x| x.as_bool()).unwrap_or(false) {
+        mockpg::LOG_OUT.store(true, Ordering::SeqCst); // C03: log every byte the mock backends write
+    }
     for b in scn["backends"].as_array().unwrap_or(&empty) {
         let name = b["name"].as_str().unwrap().to_string();
         let md5 = b.get("md5").and_then(|m| m.as_array()).map(|a| (a[0].as_str().unwrap().to_string(), a[1].as_str().unwrap().to_string()));
-        let be = Backend::start(&name, log.clone(), md5).await;
+        let be = match b.get("host").and_then(|x| x.as_str()) {
+            Some(h) => Backend::start_at(&name, log.clone(), md5, h).await,
+            None => Backend::start(&name, log.clone(), md5).await,
+        };
         if let Some(m) = b.get("mode").and_then(|x| x.as_str()) {
             be.set_mode(m);
         }
         if let Some(ms) = b.get("slow_ms").and_then(|x| x.as_u64()) {
             be.slow_ms.store(ms, Ordering::SeqCst);
+        }
+        if let Some(sh) = b.get("shadow").and_then(|x| x.as_object()) {
+            // C09: auth_query answers (user -> "md5...")
+            let mut g = be.shadow.lock();
+            for (k, v) in sh {
+                g.insert(k.clone(), v.as_str().unwrap_or("").to_string());
+            }
         }
         ctx.backends.insert(name, be);
     }
@@ -197,6 +293,7 @@ async fn run(scn: Value) -> Value {
         }
     }
     let port = ctx.pooler.as_ref().unwrap().port;
+    let mut marks: HashMap<String, usize> = HashMap::new(); // C10: mark_events / wait_event above_mark
     for step in scn["steps"].as_array().unwrap_or(&empty) {
         let op = step["op"].as_str().unwrap_or("");
         match op {
@@ -207,6 +304,20 @@ async fn run(scn: Value) -> Value {
                     }
                     if let Some(ms) = step.get("slow_ms").and_then(|x| x.as_u64()) {
                         b.slow_ms.store(ms, Ordering::SeqCst);
+                    }
+                    if let Some(sh) = step.get("shadow").and_then(|x| x.as_object()) {
+                        // C09: replace the auth_query answers
+                        let mut g = b.shadow.lock();
+                        g.clear();
+                        for (k, v) in sh {
+                            g.insert(k.clone(), v.as_str().unwrap_or("").to_string());
+                        }
+                    }
+                    if let Some(g) = step.get("open_gate").and_then(|x| x.as_str()) {
+                        b.gates.lock().insert(g.to_string()); // C10: let the statement carrying /*mock:gate=<g>*/ finish
+                    }
+                    if let Some(hm) = step.get("hang_match") {
+                        *b.hang_match.lock() = hm.as_str().map(|x| x.to_string());
                     }
                     mockpg::log_event(&log, json!({"who": "harness", "ev": "backend_mode", "b": step["b"], "mode": step["mode"]}));
                 }
@@ -227,6 +338,31 @@ async fn run(scn: Value) -> Value {
                 s["seq"] = json!(mockpg::SEQ.load(Ordering::SeqCst));
                 ctx.snapshots.push(s);
             }
+            "bans" => {
+                // C07: wall clock + the ban list of every pool (pool.get_bans(): address, reason, stored timestamp)
+                let mut pools = vec![];
+                let mut all: Vec<_> = pgcat::pool::get_all_pools().into_iter().collect();
+                all.sort_by_key(|(id, _)| format!("{}", id));
+                for (id, pool) in all {
+                    let mut bans: Vec<Value> = pool
+                        .get_bans()
+                        .iter()
+                        .map(|(a, (r, t))| json!({"host": a.host, "port": a.port, "shard": a.shard, "index": a.address_index, "role": format!("{:?}", a.role), "reason": format!("{:?}", r), "ts": t.timestamp()}))
+                        .collect();
+                    bans.sort_by_key(|b| (b["shard"].as_u64(), b["index"].as_u64()));
+                    pools.push(json!({"pool": format!("{}", id), "bans": bans}));
+                }
+                let unix_ms = std::time::SystemTime::now().duration_since(std::time::UNIX_EPOCH).map(|d| d.as_millis() as u64).unwrap_or(0);
+                mockpg::log_event(&log, json!({"who": "harness", "ev": "bans", "label": step["label"], "unix_ms": unix_ms, "pools": pools}));
+            }
+            "sleep_until_frac" => {
+                // C07: sleep until the wall clock's millisecond-of-second is `ms` (ban ages are differences of whole seconds)
+                let target = step["ms"].as_u64().unwrap_or(0) % 1000;
+                let now = std::time::SystemTime::now().duration_since(std::time::UNIX_EPOCH).map(|d| d.as_millis() as u64).unwrap_or(0);
+                let cur = now % 1000;
+                let wait = if cur <= target { target - cur } else { 1000 - cur + target };
+                tokio::time::sleep(std::time::Duration::from_millis(wait)).await;
+            }
             "control" => {
                 let c = match step["sig"].as_str().unwrap_or("") {
                     "int" => Control::Sigint,
@@ -243,6 +379,75 @@ async fn run(scn: Value) -> Value {
             "reload" => {
                 let r = pgcat::config::reload_config(ctx.pooler.as_ref().unwrap().client_server_map.clone()).await;
                 mockpg::log_event(&log, json!({"who": "harness", "ev": "reload", "result": format!("{:?}", r)}));
+            }
+            "wait_tasks" => {
+                // C09: wait until at least `n` pgcat client tasks have ended (task_results.len() >= n)
+                let n = step["n"].as_u64().unwrap_or(0) as usize;
+                let to = step["timeout_ms"].as_u64().unwrap_or(3000);
+                let t0 = std::time::Instant::now();
+                while ctx.pooler.as_ref().unwrap().task_results.lock().len() < n && (t0.elapsed().as_millis() as u64) < to {
+                    tokio::time::sleep(std::time::Duration::from_millis(2)).await;
+                }
+                let tr = ctx.pooler.as_ref().unwrap().task_results.lock().clone();
+                mockpg::log_event(&log, json!({"who": "harness", "ev": "wait_tasks", "n": n, "label": step["label"], "task_results": tr}));
+            }
+            "wait_event" | "mark_events" => {
+                // C10: wait until the log holds at least `count` events with this `ev` (and `who`, and whose
+                // JSON text contains `contains`, if given).  `mark_events` remembers the current number under
+                // `mark`; `wait_event` with `above_mark` waits for that number + `count`.
+                let ev = step["ev"].as_str().unwrap_or("").to_string();
+                let who = step.get("who").and_then(|x| x.as_str()).map(|x| x.to_string());
+                let contains = step.get("contains").and_then(|x| x.as_str()).map(|x| x.to_string());
+                let count_now = |log: &Log| log.lock().iter().filter(|e| e["ev"] == ev.as_str() && who.as_ref().map(|w| e["who"] == w.as_str()).unwrap_or(true) && contains.as_ref().map(|c| e.to_string().contains(c.as_str())).unwrap_or(true)).count();
+                if op == "mark_events" {
+                    marks.insert(step["mark"].as_str().unwrap_or("m").to_string(), count_now(&log));
+                } else {
+                    let base = step.get("above_mark").and_then(|x| x.as_str()).and_then(|m| marks.get(m).cloned()).unwrap_or(0);
+                    let n = base + step["count"].as_u64().unwrap_or(1) as usize;
+                    let to = step["timeout_ms"].as_u64().unwrap_or(1000);
+                    let t0 = std::time::Instant::now();
+                    while count_now(&log) < n && (t0.elapsed().as_millis() as u64) < to {
+                        tokio::time::sleep(std::time::Duration::from_millis(2)).await;
+                    }
+                }
+            }
+            "wait_csm" => {
+                // C10 (synchronisation only): wait until the key issued to client `of` is / is not in client_server_map
+                let want = step["present"].as_bool().unwrap_or(false);
+                let to = step["timeout_ms"].as_u64().unwrap_or(1000);
+                let c = ctx.clients.lock().get(step["of"].as_str().unwrap_or("")).cloned();
+                if let Some(c) = c {
+                    let (pid, key) = {
+                        let g = c.lock().await;
+                        (g.pid, g.key)
+                    };
+                    let t0 = std::time::Instant::now();
+                    while ctx.pooler.as_ref().unwrap().client_server_map.lock().contains_key(&(pid, key)) != want && (t0.elapsed().as_millis() as u64) < to {
+                        tokio::time::sleep(std::time::Duration::from_millis(2)).await;
+                    }
+                }
+            }
+            "hook" => {
+                // C10: arm/disarm pgcat::verif_hooks; `park` = accept indices (1-based, every accepted
+                // connection counts, cancel requests too) of the client tasks that stop at a point.
+                let on = step["arm"].as_bool().unwrap_or(true);
+                let park: Vec<u64> = step.get("park").and_then(|x| x.as_array()).map(|a| a.iter().filter_map(|x| x.as_u64()).collect()).unwrap_or_default();
+                *pooler::HOOK_PARK.lock() = park.clone();
+                pooler::HOOK_ACTORS.store(on, Ordering::SeqCst);
+                pgcat::verif_hooks::GATE.0.lock().unwrap().tickets.insert(0, u64::MAX / 2); // actor 0 never parks
+                pgcat::verif_hooks::arm(on);
+                mockpg::log_event(&log, json!({"who": "harness", "ev": "hook", "arm": on, "park": park, "accepted": pooler::ACCEPTED.load(Ordering::SeqCst)}));
+            }
+            "hook_wait" => {
+                let actor = step["actor"].as_u64().unwrap_or(0);
+                let to = step["timeout_ms"].as_u64().unwrap_or(1000);
+                let p = tokio::task::spawn_blocking(move || pgcat::verif_hooks::wait_parked(actor, to)).await.ok().flatten();
+                mockpg::log_event(&log, json!({"who": "harness", "ev": "hook_parked", "actor": actor, "point": p}));
+            }
+            "hook_release" => {
+                let actor = step["actor"].as_u64().unwrap_or(0);
+                pgcat::verif_hooks::release(actor);
+                mockpg::log_event(&log, json!({"who": "harness", "ev": "hook_released", "actor": actor}));
             }
             "wait_exit" => {
                 let t0 = std::time::Instant::now();
